@@ -448,6 +448,8 @@ def section_differential(section, nbytes, prefix=""):
                 o["ref"] = e.call(REF, "rd_pack_info", f2)
             elif section == "UnpackInfo":
                 o["ref"] = e.call(REF, "rd_unpack_info", f2)
+            elif section == "FilesInfo":
+                o["ref"] = e.call(REF, "rd_files_info", f2)
             else:
                 o["ref"] = e.call(REF, "rd_substreams", f2, ctx_folders(e, "ref"))
         except ModelRaise as ex:
@@ -478,6 +480,14 @@ def section_differential(section, nbytes, prefix=""):
                     rf["crc"] = (cb(rf["crc"][0]), rf["crc"][1])
                 for pf in P["folders"]:
                     pf.attrs["digestdefined"] = cb(pf.attrs.get("digestdefined", False))
+            elif section == "FilesInfo":
+                for rf in R:
+                    for k_ in ("emptystream", "emptyfile", "anti"):
+                        rf[k_] = cb(rf[k_])
+                for pf in P["files"]:
+                    for k_ in ("emptystream", "emptyfile"):
+                        if k_ in pf:
+                            pf[k_] = cb(pf[k_])
             else:
                 R["digests"] = [[(cb(d), v) for d, v in row] for row in R["digests"]]
                 P["digestsdefined"] = [cb(d) for d in P["digestsdefined"]]
@@ -531,6 +541,24 @@ def section_differential(section, nbytes, prefix=""):
                 c.append(a["digestdefined"] == d)
                 if d:
                     c.append(eq(a["crc"], v))
+        elif section == "FilesInfo":
+            if any(rf["anti"] for rf in R):
+                return None       # anti-items: a feature py7zr does not support (it says so with Bad7zFile) - not compared
+            c.append(len(P["files"]) == len(R))
+            for pf, rf in zip(P["files"], R):
+                c.append(bool(pf.get("emptystream")) == rf["emptystream"])
+                if rf["emptystream"]:
+                    c.append(bool(pf.get("emptyfile", False)) == rf["emptyfile"])
+                for pk, rk in (("lastwritetime", "mtime"), ("creationtime", "ctime"), ("lastaccesstime", "atime"), ("attributes", "attributes"),
+                               ("startpos", "startpos")):
+                    if rk in rf:
+                        c.append((pf.get(pk) is None) == (rf[rk] is None))
+                        if rf[rk] is not None and pf.get(pk) is not None:
+                            c.append(eq(pf[pk], rf[rk]))
+                    else:
+                        c.append(pf.get(pk) is None)
+                if "name_units" in rf:
+                    c.append(pf.get("filename") is not None)
         else:
             counts = R["counts"]
             c.append(len(P["num_unpackstreams_folders"]) == len(counts))
@@ -577,8 +605,8 @@ def replay_section(section, data):
                    {"coders": [], "bind": [], "packed": [0], "total_out": 1, "unpacksizes": [7], "crc": (True, 0x11223344)}]
     f2 = io.BytesIO(raw)
     try:
-        R = {"PackInfo": ref7z.rd_pack_info, "UnpackInfo": ref7z.rd_unpack_info}[section](f2) if section != "SubstreamsInfo" \
-            else ref7z.rd_substreams(f2, folders_ref)
+        R = {"PackInfo": ref7z.rd_pack_info, "UnpackInfo": ref7z.rd_unpack_info, "FilesInfo": ref7z.rd_files_info}[section](f2) \
+            if section != "SubstreamsInfo" else ref7z.rd_substreams(f2, folders_ref)
     except Exception as e:  # noqa
         return False, "the reference rejects these bytes too: %r" % (e,)
     f1 = io.BytesIO(raw)
@@ -597,6 +625,15 @@ def replay_section(section, data):
                         sizes=list(fo.unpacksizes), crc=(bool(fo.digestdefined), fo.crc if fo.digestdefined else 0)) for fo in P.folders]
             want = [dict(coders=[(c["method"] or b"\x00", c["nin"], c["nout"], c["props"]) for c in fo["coders"]], bind=list(fo["bind"]),
                          packed=list(fo["packed"]), sizes=list(fo["unpacksizes"]), crc=(fo["crc"][0], fo["crc"][1] if fo["crc"][0] else 0)) for fo in R]
+        elif section == "FilesInfo":
+            P = ai.FilesInfo()
+            P._read(f1)
+            tv = lambda x: None if x is None else int(x)
+            got = [dict(emptystream=bool(f.get("emptystream")), emptyfile=bool(f.get("emptyfile", False)) if f.get("emptystream") else False,
+                        mtime=tv(f.get("lastwritetime")), ctime=tv(f.get("creationtime")), atime=tv(f.get("lastaccesstime")),
+                        attributes=f.get("attributes"), startpos=f.get("startpos")) for f in P.files]
+            want = [dict(emptystream=f["emptystream"], emptyfile=f["emptyfile"], mtime=f.get("mtime"), ctime=f.get("ctime"), atime=f.get("atime"),
+                         attributes=f.get("attributes"), startpos=f.get("startpos")) for f in R]
         else:
             P = ai.SubstreamsInfo()
             P._read(f1, 2, folders_py())
@@ -625,6 +662,12 @@ def units(tier):
     for n in ((4, 10, 13) if tier == "quick" else (2, 4, 7, 10, 13, 14)):
         us.append(Unit("B.section_differential[UnpackInfo,2 folders + %d bytes]" % n, M, "section_differential",
                        dict(section="UnpackInfo", nbytes=n, prefix=UPRE), 3000))
+    # FilesInfo: two files, one property id fixed, its size and content (and what follows) free
+    for pre, ns in (("020e", (3, 4)), ("020e01c00f", (3, 4)), ("0214", (5, 6)), ("0215", (5,) if tier == "quick" else (5, 6)),
+                    ("0218", (5, 6)), ("0219", (3, 4)), ("02", (3,))):
+        for n in ns:
+            us.append(Unit("B.section_differential[FilesInfo,%s + %d bytes]" % (pre, n), M, "section_differential",
+                           dict(section="FilesInfo", nbytes=n, prefix=pre), 3000))
     # PackInfo with sizes fixed and the digest part free
     for n in ((3, 7, 11) if tier == "quick" else (3, 7, 11, 12, 13)):
         us.append(Unit("B.section_differential[PackInfo,2 streams + %d bytes]" % n, M, "section_differential",
